@@ -1,5 +1,5 @@
 SPECIFICATION Spec
-CONSTANTS Workers = {w1, w2, w3}  MaxIter = 4  AllowCancel = FALSE  BodiesEnd = TRUE
+CONSTANTS Workers = {w1, w2, w3}  MaxIter = 4  AllowCancel = FALSE  BodiesEnd = TRUE  PreCancelled = FALSE  SyncFlag = TRUE
 INVARIANTS Ceiling Gapless Unique
 PROPERTIES ExactlyN
 CHECK_DEADLOCK FALSE
